@@ -340,7 +340,19 @@ impl Family for SemFam {
             GOp::Op(SemOp::Avail) => Some("no-scheduling-point-before:BatchSemaphore::available_permits"),
             GOp::Op(SemOp::IsClosed) => Some("no-scheduling-point-before:BatchSemaphore::is_closed"),
             GOp::Op(SemOp::Cancel) => Some("no-scheduling-point-before:drop(Acquire)"),
+            // polling an `Acquire` again never has a scheduling point, and its FIRST poll omits it
+            // when the request will block on an unfair semaphore (the "double-yield optimisation"
+            // documented in `Acquire::poll`; the will-it-block test is made before the omitted point)
+            GOp::Op(SemOp::Poll) => Some("no-scheduling-point-before:re-poll-of-Acquire"),
+            GOp::Op(SemOp::Start(_) | SemOp::StartShared(_) | SemOp::Acquire(_)) => Some("no-scheduling-point-before:first-poll-of-a-blocking-unfair-Acquire"),
             _ => None,
+        }
+    }
+    fn m_fuse_applies(m: &SemM, _t: usize, op: &SemOp) -> bool {
+        match op {
+            // only where the implementation omits the point: unfair, not closed, not enough permits
+            SemOp::Start(k) | SemOp::StartShared(k) | SemOp::Acquire(k) => !m.fair && !m.closed && m.avail < *k,
+            _ => true,
         }
     }
     /// Dropping a queued (not granted) acquisition has no scheduling point at all: taking it out of
